@@ -1,6 +1,6 @@
 #!/bin/sh
 # false-alarm soak: every check, several seeds, quick tier, unchanged tree.  Usage: tools/soak.sh <first-seed> <last-seed>
-cd /verif
+cd "$(dirname "$0")/.."
 for s in $(seq $1 $2); do
   for p in C18 C17 C15 C11 C03; do
     VERIF_SEED=$s ./check $p --tier quick --no-evidence --no-selftest 2>&1 | grep -E "VIOLATION|HARNESS|tier=" | sed "s/^/seed=$s /"
